@@ -455,7 +455,8 @@ func genRandom3(r *gen.Rng, kind int) *concCase {
 
 // ---------------------------------------------------------------- uncontrolled stress
 
-// stressPhase: rounds of [A sequentially; then B, A, B from three goroutines], a fresh id per
+// stressPhase: rounds of [A sequentially; then B, A, B from three goroutines] alternating with
+// [A, B, A, B from four goroutines at once], a fresh id per
 // round, on one Fragmentation; returns the distinct outcomes with their multiplicities
 func stressPhase(r *gen.Rng, budget time.Duration, maxRounds int) ([]*concCase, int) {
 	if budget <= 0 || maxRounds <= 0 {
@@ -479,11 +480,19 @@ func stressPhase(r *gen.Rng, budget time.Duration, maxRounds int) ([]*concCase, 
 			ops[i].executed = true
 			vvs[i] = buffer.NewVectorisedView(len(ops[i].pl), []buffer.View{buffer.View(append([]byte(nil), ops[i].pl...))})
 		}
-		call(f, &ops[0], vvs[0])
 		var wg sync.WaitGroup
-		wg.Add(3)
-		for i := 1; i < 4; i++ {
-			go func(i int) { defer wg.Done(); call(f, &ops[i], vvs[i]) }(i)
+		if rounds%2 == 0 {
+			// all four calls race from the start: no reassembler exists for the id yet
+			wg.Add(4)
+			for i := 0; i < 4; i++ {
+				go func(i int) { defer wg.Done(); call(f, &ops[i], vvs[i]) }(i)
+			}
+		} else {
+			call(f, &ops[0], vvs[0])
+			wg.Add(3)
+			for i := 1; i < 4; i++ {
+				go func(i int) { defer wg.Done(); call(f, &ops[i], vvs[i]) }(i)
+			}
 		}
 		wg.Wait()
 		var kb strings.Builder
